@@ -81,8 +81,9 @@ def load_known():
 
 def run_check(prop, tier, seed=0):
     t0 = time.time()
-    os.makedirs(os.path.join(VERIF, "evidence", "replay"), exist_ok=True)
-    ev_path = os.path.join(VERIF, "evidence", "%s.json" % prop)
+    evdir = os.environ.get("AXV_EVIDENCE_DIR") or os.path.join(VERIF, "evidence")
+    os.makedirs(os.path.join(evdir, "replay"), exist_ok=True)
+    ev_path = os.path.join(evdir, "%s.json" % prop)
     try:
         os.remove(ev_path)
     except OSError:
@@ -124,7 +125,7 @@ def run_check(prop, tier, seed=0):
         print("KNOWN-FINDING: property=%s %s %s — %s" % (prop, o["key"], o["where"], k.get("what", "")))
     replay = None
     if viol:
-        replay = os.path.join(VERIF, "evidence", "replay", "%s.json" % prop)
+        replay = os.path.join(evdir, "replay", "%s.json" % prop)
         json.dump({"property": prop, "violations": viol, "repo_hash": core.repo_hash()},
                   open(replay, "w"), indent=1)
         for o in viol:
